@@ -13,6 +13,10 @@ import (
 
 var c18Arith = []string{"Add", "Sub", "Mul", "Quo", "FMA", "Sqrt", "Mul", "Quo", "Mul", "Quo"}
 var c18Copy = []string{"Set", "Neg", "Abs", "Copy", "SetMantExp", "MantExp", "GobCopy", "TextCopy"}
+
+// operations that read no shared Decimal but share the library's package-level
+// tables and the scratch pool with everybody else
+var c18Private = []string{"Parse", "SetInt", "SetRat", "SetFloat64", "SetFloat", "UnmarshalText", "Scan"}
 var c18Get = []string{"Cmp", "Sign", "IsInt", "MinPrec", "Attrs", "Int", "Int64", "Uint64", "Rat", "Float", "Float32", "Float64",
 	"Text", "Append", "Format", "String", "GobEncode", "MarshalText", "MarshalJSON"}
 
@@ -54,6 +58,9 @@ func genC18(seed uint64, tier string) *Scenario {
 	}
 	if r.chance(0.6) {
 		menu = append(menu, c18Get...)
+	}
+	if r.chance(0.35) {
+		menu = append(menu, c18Private...)
 	}
 	if len(menu) == 0 {
 		menu = c18Arith
@@ -118,6 +125,15 @@ func genC18(seed uint64, tier string) *Scenario {
 				op.A[1] = op.A[0] // x == y: squaring path
 			}
 			fillParams(r, &op)
+			switch op.Name {
+			case "Parse", "SetInt", "SetRat", "SetFloat64", "SetFloat", "UnmarshalText", "Scan":
+				genParams(r, sc, &op)
+				if op.Name == "Parse" && r.chance(0.6) {
+					// non-decimal literals go through pow2 -> Mul/Quo -> the scratch pool
+					op.M = 0
+					op.S = fmt.Sprintf("0x%x%x.%xp%d", r.Uint64(), r.Uint64(), r.Uint64(), r.rangeI(-900, 900))
+				}
+			}
 			if !inf.writes {
 				op.Z = -1
 			}
